@@ -347,3 +347,18 @@ Proof.
          | |- _ \/ hd0 _ = 58 => right; reflexivity
          end.
 Qed.
+
+(* the enabling port reported for a skipped sub-tree ('enabled by' naming a port
+   inside it) is a port of the sub-tree's own table, at the skipped sub-tree's
+   own expanded address followed by that port's name *)
+Lemma sub_toggle_addr : forall qn m sub b j a,
+  sub_toggle (Port qn m (Some sub)) b = Some (j, a) ->
+  exists e', a = b ++ e' /\ index_op sub e' = Some j.
+Proof.
+  intros qn m sub b j a H. unfold sub_toggle in H.
+  destruct m as [m|]; [|discriminate]. destruct (meta m) as [s|]; [|discriminate].
+  destruct (lookup s enabled_by) as [[v|]|]; try discriminate.
+  destruct (subport_split qn v) as [e'|]; [|discriminate].
+  destruct (index_op sub e') as [j'|] eqn:E; [|discriminate].
+  inversion H; subst. exists e'. split; [reflexivity | exact E].
+Qed.
